@@ -48,6 +48,17 @@ def ledger_oracle(log):
     return None
 
 
+def flags_oracle(log):
+    """every descriptor handed to iv_fd_register(_try) is non-blocking and close-on-exec afterwards (any family, any kind of descriptor)"""
+    for l in log.splitlines():
+        if l.startswith("FDFLAGS") and ("nonblock=1" not in l or "cloexec=1" not in l):
+            return f"hygiene: registered descriptor {l.split()[1]} is not non-blocking close-on-exec: {l}"
+    return None
+
+
+l1.LOG_ORACLES[PROP] = flags_oracle
+
+
 def churn_scenario(n, seed):
     L = [f"cfg seed={seed} waitlimit=40", "thread 0", "obj timer t0", "do trel t0 40000000", "main"]
     for k in range(1, n + 1):
